@@ -11,6 +11,7 @@ from vlib import ref_toast as rt
 
 PROPERTY = "C06"
 LEVEL = "exploration"
+OPTIMIZED_SAMPLE = (5, 40)  # cases repeated under python -O (quick, thorough)
 JOBS = 14
 CASE_TIMEOUT = 400
 RULE = (
